@@ -174,3 +174,19 @@ def addr_size(num, st, kind, n):
         sz = (t.get("w", 64) // 8) if "w" in t else 8
         return [(p, Poly.const(sz), "rw")]
     return []
+
+
+def std_states(prog, fn, hooks, max_paths=20000):
+    """one NUM run per (function, hooks class) and program: abstract states before every access site, before every
+    return statement and at the exit.  Rules that look at the same function share it."""
+    memo = prog.__dict__.setdefault("_std_states", {})
+    key = (fn.name, fn.file, type(hooks).__name__)
+    if key not in memo:
+        num = Num(fn, prog, hooks, max_paths=max_paths)
+        num.track_progress = True
+        ids = {s[0] for s in access_sites(fn)} | {x["id"] for b_ in fn.blocks.values() for x in b_.elems if x["k"] == "ret"} | {-1}
+        try:
+            memo[key] = (num, num.states_at(ids), None)
+        except Limit as ex:
+            memo[key] = (num, {}, ex)
+    return memo[key]
